@@ -35,21 +35,22 @@ alignas(64) static unsigned char topo_storage[sizeof(pika::threads::detail::topo
 extern "C" void aff_main()
 {
     using namespace pika::detail;
-    m_sockets = verif_nondet_range(1, 2);
+    // the machine shape is a parameter of the query (concrete loop bounds); process mask, thread count and
+    // use of the mask stay symbolic
+    m_sockets = (std::size_t) verif_param(1);
     m_cores = 0;
     m_pus = 0;
     for (std::size_t s = 0; s < m_sockets; ++s)
     {
-        m_socket_cores[s] = verif_nondet_range(1, 2);
+        m_socket_cores[s] = (std::size_t) verif_param(2);
         for (std::size_t c = 0; c < m_socket_cores[s]; ++c)
         {
-            m_core_pus[m_cores] = verif_nondet_range(1, 2);
+            m_core_pus[m_cores] = (std::size_t) verif_param(3);
             m_core_base[m_cores] = m_pus;
             m_pus += m_core_pus[m_cores];
             ++m_cores;
         }
     }
-    verif_assume(m_pus <= (std::size_t) verif_param(1));    // machine size bound of this query
     std::uint64_t all = (std::uint64_t(1) << m_pus) - 1;
     m_proc_mask = verif_nondet_u64() & all;
     verif_assume(m_proc_mask != 0);
